@@ -28,19 +28,21 @@ from tables.c09 import canon, jtext
 META = {
     'level_text': 'Theorems about an explicit object-heap model of HasAccessibles.__init_subclass__ / Module.__init__ / datatype '
                   'mutation (FrappyModel/Klass): frame (every operation leaves every existing object alone that is not reachable from '
-                  'its target), isolated (description and validation behaviour of every non-target owner unchanged, one step, under the '
-                  'invariants Bounded and Separated), class_description_stable and later_instances_fresh (over runs whose intermediate '
-                  'worlds satisfy the invariants).  PARTIAL: preservation of the invariants is proved for instantiation only '
-                  '(separated_preserved_partial), order independence only at value level for an unrelated earlier class '
-                  '(order_independent_partial); the full statements are kept as separated_preserved_statement / '
-                  'order_independent_statement.  Tied to the code by a correspondence run (every dump and the id()-sharing partition '
-                  'after every operation of generated programs) and by Lean monitors judging every implementation trace (isolation, '
-                  'order independence, later instances).',
+                  'its target), separated_preserved (every admissible operation - class definition, instantiation, setProperty, enum '
+                  'replacement - keeps: no object reachable from an instance is reachable from another owner), isolated / '
+                  'isolated_reachable (description and validation behaviour of every non-target owner unchanged, after any admissible '
+                  'program), class_description_stable, later_instances_fresh (all for every admissible run).  PARTIAL: '
+                  'order_independent_partial - the value a class is laid out from (ClassRec.pure) equals pureOf(env), a function of '
+                  'the class bodies along its MRO only, for every program whose definition order is consistent with inheritance; '
+                  'that describeH shows exactly this value (faithfulness of the heap layout) is not proved '
+                  '(order_independent_statement).  Tied to the code by a correspondence run (every dump and the id()-sharing '
+                  'partition after every operation of generated programs) and by Lean monitors judging every implementation trace '
+                  '(isolation incl. write_<p>/command-call behaviour, order independence, later instances, writes follow the own datatype).',
     'level_note': 'Trusted: Lean kernel + axioms propext/Classical.choice/Quot.sound; Python C3 linearisation is an input (the real '
                   '__mro__ is passed to the model); validation behaviour is taken to be a function of the exported datainfo '
                   '(monitored on every run); whether an operation fails is taken from the implementation (the model skips failed '
-                  'operations, the judge demands they change nothing); faithfulness of the heap layout and invariant preservation by '
-                  'class definition / mutation are tested by the correspondence run, not proved.',
+                  'operations, the judge demands they change nothing); faithfulness of the heap layout w.r.t. the value-level result '
+                  'is tested by the correspondence run, not proved; write/call outcomes are judged, not predicted by the model.',
     'trusted': [
         "Python's C3 linearisation (the real __mro__ of every generated class is passed to the model as data)",
         'validation behaviour of a datatype object is a function of its exported datainfo (checked by the monitor valFunctionalB on every run)',
@@ -49,7 +51,8 @@ META = {
     'modelled_not_verified': [
         'module-level properties (group, visibility, ...): dumped and judged, not predicted by the model',
         'read_/write_/check_ wrapper generation in __init_subclass__',
-        'Limit parameters, StructOf/TupleOf declared by generated classes (TupleOf/StatusType appear through frappy.modules only)',
+        'Limit parameters, TupleOf declared by generated classes (TupleOf/StatusType appear through frappy.modules only); StructOf only as command argument',
+        'outcomes of write_<p>(v) through the generated wrapper and of Command.do(): dumped, judged (isolation, order, writesOwn), not predicted',
     ],
     'assumptions': ['declared datatype objects are not shared between two declarations of the generated program'],
 }
